@@ -29,10 +29,17 @@ def gen_cases(tier, rng):
         h = fanout.Hist(rng, cfg)
         live = []
         epochs = rng.choice([2, 2, 3, 4])
+        was_quick = False
         for e in range(epochs):
             for _ in range(rng.randrange(0, 3)):
                 live.append(h.join(rng.choice(kinds)))
             h.start(pat=rng.random() < 0.8)
+            if was_quick:
+                h.tick()
+            if rng.random() < 0.5:
+                h.sdp()
+            if rng.random() < 0.4:
+                h.describe()
             seq = list(fanout.STREAMS[rng.choice(names)])
             cut = rng.randrange(0, len(seq) + 1)
             for kind in seq[:cut]:
@@ -46,15 +53,24 @@ def gen_cases(tier, rng):
                     h.ts(rng.random() < 0.4)
             if rng.random() < 0.15:
                 h.stop()       # a second stop of the same input must be a no-op
-            h.stop()
+            quick = cfg.get("push") and rng.random() < 0.5 and e + 1 < epochs
+            was_quick = bool(quick)
+            if quick:
+                h.stop_quick()   # the next input follows at once; then a tick
+            else:
+                h.stop()
+            if rng.random() < 0.5:
+                h.describe()
             if rng.random() < 0.3:
                 live.append(h.join(rng.choice(kinds)))
+        if cfg.get("push"):
+            h.tick()
         yield Case(h.line(), cls="%d-epochs%s" % (epochs, "-push" if cfg.get("push") else ""))
 
 
 def split_impl(c, out):
     """the hook is observed on the implementation only"""
-    return "|".join(p for p in out.split("|") if not p.startswith("hook=")) or "-"
+    return "|".join(p for p in out.split("|") if not p.startswith(("hook=", "popen="))) or "-"
 
 
 def nontrivial(c, out):
@@ -67,18 +83,23 @@ def oracle(c, out):
     cfg, evs = fanout.parse_case(c.line)
     obs = fanout.parse_obs(out)
     msgs, spans, joins, kinds, leaves = [], [], {}, {}, {}
+    sdps, describes = [], {}
     epoch, in_epoch = -1, False
     for pos, e in enumerate(evs):
         if e[0] == "I" and not in_epoch:
             epoch += 1
             in_epoch = True
             spans.append([pos, len(evs)])
-        elif e[0] == "O" and in_epoch:
+        elif e[0] in ("O", "Oq") and in_epoch:
             in_epoch = False
             spans[-1][1] = pos
         elif e[0] == "P":
             p = tok_bytes(e[3])
             msgs.append(dict(t=int(e[1]), p=p, epoch=epoch if in_epoch else None, pos=pos))
+        elif e[0] == "S":
+            sdps.append(dict(epoch=epoch if in_epoch else None, pos=pos))
+        elif e[0] == "D":
+            describes[e[1]] = pos
         elif e[0][0] == "J" and e[1] not in joins:
             joins[e[1]] = pos
             kinds[e[1]] = e[0][1]
@@ -114,9 +135,32 @@ def oracle(c, out):
                 bad = [l for l in seg if l[0] == "?" or int(l[1:]) not in per_epoch[ep]]
                 if bad:
                     return (False, "push session of input %d received %s" % (ep, bad[:6]))
+    # relay-push sessions are closed: none still open at the target when everything ended
+    po = obs.get("popen")
+    if po is not None and po != [["0"]]:
+        return (False, "%s relay-push session(s) still open at the target after the last input ended" % po[0][0])
+    # a DESCRIBE is answered with the SDP of the CURRENT input only
+    for cid, pos in describes.items():
+        got = obs.get(cid, [[]])[0]
+        cur = None
+        for ep, sp in enumerate(spans):
+            if sp[0] < pos < sp[1]:
+                cur = ep
+        want = None
+        for kk, sd in enumerate(sdps):
+            if sd["pos"] < pos and sd["epoch"] is not None and sd["epoch"] == cur:
+                want = kk
+        if cur is None:
+            # no input attached: whatever was announced before the last input ended must be gone
+            last_end = max([sp[1] for sp in spans if sp[1] < pos], default=-1)
+            late = [kk for kk, sd in enumerate(sdps) if last_end < sd["pos"] < pos]
+            want = late[-1] if late else None
+        exp = [] if want is None else ["d%d" % want]
+        if got != exp:
+            return (False, "DESCRIBE %s answered with %s, the current input's SDP is %s" % (cid, got, exp))
     # clean restart: a consumer that joined during or after input e never receives anything of an earlier input
     for cid, k in kinds.items():
-        if k in ("p", "t"):
+        if k in ("p", "t") or obs.get(cid) == [["!"]]:
             continue
         a = joins[cid]
         first_ep = None
